@@ -56,6 +56,12 @@ pub enum Cmd {
         ttl: u8,
         period: Option<u64>,
     },
+    /// `sim.process(query_source.query(..))`, then the replies are taken from the receiver
+    ProcessQuerySrc {
+        src: u16,
+        script: u16,
+        ttl: u8,
+    },
     ReadTime,
     /// connect, from the driver and through a detached clone of `outs[out]` of
     /// `model`, one more connection (C14: clones share one connection list)
@@ -75,6 +81,7 @@ impl Cmd {
                 | Cmd::ProcessEvent { .. }
                 | Cmd::ProcessQuery { .. }
                 | Cmd::ProcessAction { .. }
+                | Cmd::ProcessQuerySrc { .. }
         )
     }
 }
@@ -97,6 +104,9 @@ pub struct CmdObs {
     pub sched: Option<u8>,
     /// replies of a process_query
     pub reply: Option<(u16, u64, u16)>,
+    /// replies (from, id, via) taken from the receiver of a query source, in the order yielded
+    #[serde(default)]
+    pub qreplies: Option<Vec<(u16, u64, u16)>>,
     pub panicked: bool,
     pub time_after: i64,
     pub sched_time_after: i64,
@@ -163,6 +173,7 @@ pub fn run_scase(c: &SCase) -> SObs {
             err: None,
             sched: None,
             reply: None,
+            qreplies: None,
             panicked: false,
             time_after: 0,
             sched_time_after: 0,
@@ -319,6 +330,15 @@ pub fn run_scase(c: &SCase) -> SObs {
                     Some(p) => s.periodic_event(std::time::Duration::from_nanos(*p), m),
                 };
                 o.err = res_kind(&w.sim.process(a));
+            }
+            Cmd::ProcessQuerySrc { src, script, ttl } => {
+                let Some(s) = w.qsources.get_mut(*src as usize) else { return };
+                let m = Msg::new(eid, *script, *ttl);
+                let (a, mut rx) = s.query(m);
+                match w.sim.process(a) {
+                    Ok(()) => o.qreplies = rx.take().map(|it| it.map(|r| (r.from, r.id, r.via)).collect()),
+                    Err(e) => o.err = Some(classify(&e)),
+                }
             }
             Cmd::ReadTime => {}
             Cmd::Connect { model, out, conn } => {
